@@ -158,6 +158,13 @@ def plan_run(rng, kind):
         names = sorted({rn for mt in moltypes for rn in mt['resnames']})
         case['skip'] = [rng.choice(names)]
         case['nres_supplied'] = nres_total
+        # a molecule type that happens to be called like the residue name given with -res, holding other residues too
+        cands = [mt for mt in moltypes if any(r != case['skip'][0] for r in mt['resnames'])]
+        if cands and rng.random() < 0.5 and case['skip'][0] not in by:
+            mt = rng.choice(cands)
+            old = mt['name']
+            mt['name'] = case['skip'][0]
+            case['molecules'] = molecules = [(mt['name'] if n == old else n, c) for n, c in molecules]
     elif kind == 'centres':
         case['resolution'] = 'meta_mol'
         case['nres_supplied'] = rng.randint(1, nres_total)
@@ -458,6 +465,14 @@ def run(ctx):
             if maxiter:
                 c['maxiter'] = maxiter
             directed.append(c)
+    # always exercised: -res names a residue, and a molecule type that holds other residues too carries the same name
+    for _ in range(ctx.n(2, 8)):
+        n = rng.randint(3, 5)
+        ra = systems.gen_moltype(rng, 'RA', nres=n, multi_atom=rng.random() < 0.5, shape='path', resnames=['RB' if i % 2 == 0 else 'RA' for i in range(n)])
+        mb = systems.gen_moltype(rng, 'MB', nres=rng.randint(1, 3), multi_atom=rng.random() < 0.5, shape='path', resnames=['RB'] * 3)
+        directed.append({'kind': 'rebuild', 'moltypes': [ra, mb], 'molecules': [('RA', 1), ('MB', rng.randint(1, 2))], 'seed': rng.randrange(10 ** 6),
+                         'L': 6.0, 'skip': ['RA'], 'ignore': [], 'fail': {}, 'resolution': rng.choice(['mol', 'meta_mol']),
+                         'nres_supplied': n + 6})
     rng.shuffle(directed)
     cases[0:0] = directed
     for i in range(ctx.n(30, 300)):
@@ -466,7 +481,7 @@ def run(ctx):
         except ValueError:
             continue
     if ctx.broken:
-        cases = cases[:16]
+        cases = cases[:18]
     timeouts = 0
     for case in cases:
         if timeouts >= 2:
